@@ -10,7 +10,7 @@ from ._sim_common import frac, summarize
 
 ID = "C15"
 RULE = ("Hypothesis generates 2-3 markets, a PriceLimitRule with rate r in {0.005..0.5} over a non-empty proper or full subset of "
-        "them, and scripted agents whose limit prices lie far outside, exactly on the edge of (p0*(1+-r) requested as an absolute "
+        "them (in half of the cases with a second rule of another rate over remaining markets, enabled or not), and scripted agents whose limit prices lie far outside, exactly on the edge of (p0*(1+-r) requested as an absolute "
         "price is approximated by integer/fractional tick offsets up to +-60 ticks), and inside the band, plus market orders. A "
         "probe event registered before the rule records, for every pending order, the asked price and p0 = "
         "get_market_price(0) at that moment. Oracle per accepted order: on a target market the accepted price is an admissible "
@@ -43,13 +43,22 @@ def cases(draw, tier):
     targets = draw(st.permutations(names))[:k]
     cfg["PL"] = {"class": "PriceLimitRule", "targetMarkets": list(targets), "triggerChangeRate": r,
                  "enabled": draw(st.sampled_from([True, True, True, True, False]))}
+    rest = [n for n in names if n not in targets]
+    second = bool(rest) and draw(st.booleans())
+    if second:
+        # a second, independent rule over (some of) the remaining markets with its own rate, possibly disabled
+        k2 = draw(st.integers(1, len(rest)))
+        cfg["PL2"] = {"class": "PriceLimitRule", "targetMarkets": rest[:k2], "triggerChangeRate": draw(st.sampled_from([0.01, 0.2, 0.4])),
+                      "enabled": draw(st.sampled_from([True, True, False]))}
     cfg["P"] = {"class": "VProbeEvent", "hooks": [["order", True, None, None, None], ["execution", False, None, None, None]]}
     ns = draw(st.integers(1, 3))
     pls = draw(st.integers(0, ns - 1))
+    pls2 = draw(st.integers(0, ns - 1))
     for s in range(ns):
         cfg["simulation"]["sessions"].append({"sessionName": s, "iterationSteps": draw(st.integers(1, 8 if tier == "quick" else 30)), "withOrderPlacement": True,
                                               "withOrderExecution": draw(st.sampled_from([True, True, False])), "withPrint": False,
-                                              "maxNormalOrders": draw(st.integers(1, 5)), "events": (["P"] if s == 0 else []) + (["PL"] if s == pls else [])})
+                                              "maxNormalOrders": draw(st.integers(1, 5)),
+                                              "events": (["P"] if s == 0 else []) + (["PL"] if s == pls else []) + (["PL2"] if second and s == pls2 else [])})
     return {"config": cfg, "seed": draw(st.integers(0, 2**31 - 1))}
 
 
@@ -58,8 +67,13 @@ def check_case(case):
     A = Analysis(case, res)
     sim, cfg = A.sim, case["config"]
     pl = cfg["PL"]
-    r = pl["triggerChangeRate"]
-    targets = set(pl["targetMarkets"]) if pl["enabled"] else set()
+    # rate in force per market: each market is targeted by at most one (enabled) rule
+    rate_of = {}
+    for rule in (cfg["PL"], cfg.get("PL2")):
+        if rule is not None and rule.get("enabled", True):
+            for n in rule["targetMarkets"]:
+                rate_of[n] = rule["triggerChangeRate"]
+    targets = set(rate_of)
     probe = {}
     for k, kw in A.items:
         if k == "hook" and kw["what"] == "order_before":
@@ -91,6 +105,7 @@ def check_case(case):
             continue
         if l.price is None:
             raise Violation("C15.limit_order_lost_price", "")
+        r = rate_of.get(m.name, pl["triggerChangeRate"])
         lo, hi = p0 * (1 - r), p0 * (1 + r)
         if m.name in targets:
             cands = [min(max(asked, lo), hi)]
@@ -126,13 +141,15 @@ def check_case(case):
             p0s.setdefault(l.market_id, set()).add(kw["p0"])
             if m.name in targets:
                 n_target_fills += 1
+                r = rate_of[m.name]
                 lo = min(p0s[l.market_id]) * (1 - r) - m.tick_size
                 hi = max(p0s[l.market_id]) * (1 + r) + m.tick_size
                 if not (lo * (1 - 1e-12) <= l.price <= hi * (1 + 1e-12)):
                     raise Violation("C15.trade_outside_band", f"fill at {l.price!r} (time {l.time}) on target market {m.name}; band widened by one tick is "
                                                               f"[{lo!r}, {hi!r}] over the time-0 prices seen so far {sorted(p0s[l.market_id])}")
     nt = st_["clipped"] > 0 and (st_["non_target_outside"] > 0 or len(targets) == len(sim.markets))
-    classes = [k for k, v in st_.items() if v] + (["target_fills"] if n_target_fills else []) + ([] if pl["enabled"] else ["disabled"])
+    classes = [k for k, v in st_.items() if v] + (["target_fills"] if n_target_fills else []) + ([] if pl["enabled"] else ["disabled"]) + \
+              (["two_rules"] if "PL2" in cfg else [])
     return CaseInfo(nontrivial=nt, classes=classes, steps=len(A.order_logs),
                     sample={"rule": pl, "ticks": {n: cfg[n]["tickSize"] for n in cfg["simulation"]["markets"]}, "stats": st_, "target_fills": n_target_fills,
                             "seed": case["seed"]})
